@@ -7,7 +7,7 @@ s = open(p).read()
 i = s.index("# --- repaired defects")
 log = subprocess.run(["git", "-C", "/repo", "log", "--format=%h %s", "7769d5f..HEAD"], stdout=subprocess.PIPE).stdout.decode().strip().split("\n")
 PM = [("Memory page lookup", "C05"), ("integer division", "C04"), ("binary literals", "C04"), ("over-long token", "C16"), ("malformed macro invocation", "C12"),
-      ("macro arguments and expansions", "C16"), (".ifndef nested", "C10"), ("errors inside conditional", "C12"), ("S2 record", "C03"), ("write_wdc dropped", "C03"), ("read_uf2 read past", "C17"), ("read_amiga looped", "C17"), ("read_elf and read_macho looped", "C17"), ("print16 and print32 never stopped", "C17"), ("write/write16/write32 never returned", "C17"), ("linking a plain .o file", "C20"), ("disasm_range_tms9900 overran", "C08"), ("naken_util -disasm_range as the last", "C17"), ("an image that reaches address 0xffffffff", "C16"), ("naken_util disasm walked the memory pages", "C08"), ("Symbols::iterate", "C11"),
+      ("macro arguments and expansions", "C16"), (".ifndef nested", "C10"), ("errors inside conditional", "C12"), ("S2 record", "C03"), ("write_wdc dropped", "C03"), ("read_uf2 read past", "C17"), ("read_amiga looped", "C17"), ("read_elf and read_macho looped", "C17"), ("print16 and print32 never stopped", "C17"), ("write/write16/write32 never returned", "C17"), ("linking a plain .o file", "C20"), ("disasm_range_tms9900 overran", "C08"), ("naken_util -disasm_range as the last", "C17"), ("an image that reaches address 0xffffffff", "C16"), ("naken_util disasm walked the memory pages", "C08"), ("naken_util repeated its last command", "C17"), ("Symbols::iterate", "C11"),
       ("msp430 simulator reads", "C14"), ("tms340", "C02"), (".align/.align_bytes", "C05"), ("unary - or ~", "C04"), ("ending in a binary operator", "C04"),
       ("unterminated parenthesis", "C04"), ("disasm_6502", "C08"), ("SUB/CMP flags", "C14"), ("XOR.B", "C14"), ("SXT", "C14"), ("disasm_msp430", "C08"),
       ("8008 simulator", "C15"), ("get_reg_number", "C06"), ("write/write16/write32 stop", "C17"), ("get_hex does not step", "C17"), ("jal target", "C20"),
